@@ -246,6 +246,16 @@ def observe(arm, st_, tol, ctx, step, expect_theta=True):
     if len(JT) == n + 2 and m.kind != "urdf" and off_joint and not st_.joint_taint[n - 1]:
         Tl = as_T(JT[-2], tag + " getJointTransforms[-2]")
         expect_pose(Tl, frames[n - 1], tol, tag + " last joint frame (entry before the tool) vs model")
+    # "Base return behavior can be disabled by setting 'return_base' to false": the same list without its first entry
+    # (asked positionally and by keyword)
+    for how, JT2 in (("getJointTransforms(False)", sut(arm.getJointTransforms, False)),
+                     ("getJointTransforms(return_base=False)", sut(arm.getJointTransforms, return_base=False))):
+        if not isinstance(JT2, list) or len(JT2) != len(JT) - 1:
+            raise Violation("%s: %s returned %s entries, the default form %d" % (
+                tag, how, len(JT2) if isinstance(JT2, list) else type(JT2).__name__, len(JT)))
+        for k in range(len(JT2)):
+            expect_pose(as_T(JT2[k], "%s %s[%d]" % (tag, how, k)), as_T(JT[k + 1], tag + " getJointTransforms[%d]" % (k + 1)),
+                        tol, "%s %s[%d] vs getJointTransforms()[%d]" % (tag, how, k, k + 1))
     # the state must not have been changed by looking at it
     th2 = np.array(arm._theta, dtype=float).reshape(-1)
     if th2.shape != (n,) or (n and float(np.abs(th2 - st_.th).max()) > 1e-12):
